@@ -373,7 +373,10 @@ impl GrandState {
             EnterSubshellOption::ClearInternalDisposition => new_setting,
             EnterSubshellOption::Ignore => Disposition::Ignore,
         };
-        if old_disposition != new_disposition
+        // With `EnterSubshellOption::Ignore`, the disposition must be set even
+        // if it does not change, so that the system unblocks the signal that
+        // may have been blocked by `BlockSignals::block_sigint_sigquit`.
+        if (old_disposition != new_disposition || option == EnterSubshellOption::Ignore)
             && let Condition::Signal(signal) = cond
         {
             system.set_disposition(signal, new_disposition).await?;
